@@ -27,9 +27,10 @@
 #include <fcppt/algorithm/loop_break_mpl.hpp>
 #include <fcppt/algorithm/loop_break_tuple.hpp>
 #include <fcppt/algorithm/map.hpp>
+#include <fcppt/algorithm/map_array.hpp>
+#include <fcppt/algorithm/map_tuple.hpp>
 #include <fcppt/algorithm/map_concat.hpp>
 #include <fcppt/algorithm/map_iteration.hpp>
-#include <fcppt/algorithm/map_iteration_second.hpp>
 #include <fcppt/algorithm/map_optional.hpp>
 #include <fcppt/algorithm/remove.hpp>
 #include <fcppt/algorithm/remove_if.hpp>
@@ -45,7 +46,9 @@
 #include <fcppt/enum/range_impl.hpp>
 #include <fcppt/enum/iterator_impl.hpp>
 #include <fcppt/mpl/list/object.hpp>
+#include <fcppt/tuple/get.hpp>
 #include <fcppt/tuple/object.hpp>
+#include <fcppt/tuple/size.hpp>
 
 #include <cstring>
 #include <deque>
@@ -63,8 +66,10 @@ using ivec = std::vector<int>;
 template <typename It1, typename It2>
 long dist(It1 b, It2 e)
 {
+  // a garbage iterator (not reachable from begin) must not walk for ever: absurd distance instead
   long n = 0;
-  for (; !(b == e); ++b) ++n;
+  for (; !(b == e); ++b)
+    if (++n > 1000000) return static_cast<long>(CLAMP);
   return n;
 }
 
@@ -322,6 +327,190 @@ void mut_algos(char const *sn, ivec const &v, std::string const &xs, bool full, 
   (void)sel;
 }
 
+// ---------------------------------------------------------------- value categories of the source range
+// (round 3 audit) map / map_concat / map_optional / fold / fold_break / loop / loop_break / find_* /
+// binary_search / equal_range / reverse take forwarding references: besides the const lvalue that every
+// driver above passes, an rvalue (elements are moved: fcppt::move_if_rvalue) and a non-const lvalue
+// (mutable iterators in the result) are driven here.  `cat` is informative; the prediction is the same.
+template <typename Cont>
+void category_algos(char const *sn, ivec const &v, std::string const &xs, Sel &sel)
+{
+  sel.tables(27, false, [&](int i) {
+    {
+      UF const f(i);
+      Cont c(v.begin(), v.end());
+      Rec r("map");
+      r.ks("src", sn).ks("cat", "rvalue").ks("tgt", "vector").ki("ek", 0).k("xs", xs).k("ft", f.json()).begin();
+      std::vector<int> const res(fcppt::algorithm::map<std::vector<int>>(std::move(c), f));
+      r.k("r", seqj(res)).end_log();
+    }
+    {
+      UF const f(i);
+      Cont c(v.begin(), v.end());
+      Rec r("map");
+      r.ks("src", sn).ks("cat", "mutable").ks("tgt", "list").ki("ek", 0).k("xs", xs).k("ft", f.json()).begin();
+      std::list<int> const res(fcppt::algorithm::map<std::list<int>>(c, f));
+      r.k("r", seqj(res)).end_log();
+    }
+  });
+  sel.tables(125, false, [&](int i) {
+    SF<std::vector<int>> const f(i);
+    Cont c(v.begin(), v.end());
+    Rec r("map_concat");
+    r.ks("src", sn).ks("cat", "rvalue").ks("tgt", "vector").ki("ek", 0).k("xs", xs).k("ft", f.json()).begin();
+    std::vector<int> const res(fcppt::algorithm::map_concat<std::vector<int>>(std::move(c), f));
+    r.k("r", seqj(res)).end_log();
+  });
+  sel.tables(64, false, [&](int i) {
+    {
+      OF const f(i);
+      Cont c(v.begin(), v.end());
+      Rec r("map_optional");
+      r.ks("src", sn).ks("cat", "rvalue").ks("tgt", "vector").ki("ek", 0).k("xs", xs).k("ft", f.json()).begin();
+      std::vector<int> const res(fcppt::algorithm::map_optional<std::vector<int>>(std::move(c), f));
+      r.k("r", seqj(res)).end_log();
+    }
+    {
+      OF const f(i);
+      Cont c(v.begin(), v.end());
+      Rec r("find_by_opt");
+      r.ks("src", sn).ks("cat", "mutable").ki("ek", 0).k("xs", xs).k("ft", f.json()).begin();
+      fcppt::optional::object<int> const res(fcppt::algorithm::find_by_opt(c, f));
+      r.k("r", ej(res)).end_log();
+    }
+  });
+  {
+    FF const f(sel.rng);
+    int const init = static_cast<int>(sel.rng.below(3));
+    Cont c(v.begin(), v.end());
+    Rec r("fold");
+    r.ks("src", sn).ks("cat", "rvalue").ki("ek", 0).k("xs", xs).ki("init", init).k("ft2", f.json()).begin();
+    int const res = fcppt::algorithm::fold(std::move(c), init, f);
+    r.ki("r", res).end_log();
+  }
+  {
+    FBF const f(sel.rng, 3U);
+    int const init = static_cast<int>(sel.rng.below(3));
+    Cont c(v.begin(), v.end());
+    Rec r("fold_break");
+    r.ks("src", sn).ks("cat", "mutable").ki("ek", 0).k("xs", xs).ki("init", init).k("ft2", f.json()).begin();
+    int const res = fcppt::algorithm::fold_break(c, init, f);
+    r.ki("r", res).end_log();
+  }
+  {
+    Cont c(v.begin(), v.end());
+    Rec r("loop");
+    r.ks("src", sn).ks("cat", "rvalue").ki("ek", 0).k("xs", xs).begin();
+    fcppt::algorithm::loop(std::move(c), [](auto &&x) { lg(ej(x)); });
+    r.end_log();
+  }
+  for (int i = 0; i < 8; ++i)
+  {
+    {
+      BF const f(i);
+      Cont c(v.begin(), v.end());
+      Rec r("loop_break");
+      r.ks("src", sn).ks("cat", i % 2 == 0 ? "mutable" : "rvalue").ki("ek", 0).k("xs", xs).k("ft", f.json()).begin();
+      if (i % 2 == 0)
+        fcppt::algorithm::loop_break(c, f);
+      else
+        fcppt::algorithm::loop_break(std::move(c), f);
+      r.end_log();
+    }
+    {
+      PF const f(i);
+      Cont c(v.begin(), v.end());
+      Rec r("find_if_opt");
+      r.ks("src", sn).ks("cat", "mutable").ki("ek", 0).k("xs", xs).k("ft", f.json()).begin();
+      auto const res(fcppt::algorithm::find_if_opt(c, f));
+      r.k("r", opt_pos(res, c.begin())).end_log();
+    }
+  }
+  for (int val = -1; val <= 3; ++val)
+  {
+    {
+      Cont c(v.begin(), v.end());
+      Rec r("find_opt");
+      r.ks("src", sn).ks("cat", "mutable").k("xs", xs).ki("v", val).begin();
+      auto const res(fcppt::algorithm::find_opt(c, val));
+      r.k("r", opt_pos(res, c.begin())).end();
+    }
+    if (sorted(v))
+    {
+      Cont c(v.begin(), v.end());
+      {
+        Rec r("binary_search");
+        r.ks("src", sn).ks("cat", "mutable").k("xs", xs).ki("v", val).begin();
+        auto const res(fcppt::algorithm::binary_search(c, val));
+        r.k("r", opt_pos(res, c.begin())).end();
+      }
+      {
+        Rec r("equal_range");
+        r.ks("src", sn).ks("cat", "mutable").k("xs", xs).ki("v", val).begin();
+        auto const res(fcppt::algorithm::equal_range(c, val));
+        r.k("r", "[" + std::to_string(dist(c.begin(), res.begin())) + "," + std::to_string(dist(c.begin(), res.end())) + "]")
+            .end();
+      }
+    }
+  }
+}
+
+// ---------------------------------------------------------------- inputs beyond the exhaustive bound
+// (round 3 audit) seeded random sequences over {0,1,2} of lengths 7..33 (and their sorted forms, full of
+// duplicates, for binary_search / equal_range), so that a defect that needs more than 6 elements - a
+// second reallocation, a counter of a narrower type, an unrolled loop - is met in the quick tier.
+inline std::vector<ivec> long_inputs(vj::Rng &rng, bool const thorough)
+{
+  std::vector<ivec> res;
+  static unsigned const lens[] = {7, 8, 9, 12, 16, 17, 33};
+  for (unsigned const len : lens)
+    for (unsigned k = 0; k < (thorough ? 6U : 2U); ++k)
+    {
+      ivec v;
+      unsigned const bias = static_cast<unsigned>(rng.below(3)); // some inputs with long runs of one value
+      for (unsigned i = 0; i < len; ++i)
+        v.push_back(static_cast<int>(rng.below(4) == 0 ? rng.below(3) : (k % 2 == 0 ? rng.below(3) : bias)));
+      res.push_back(v);
+      ivec s(v);
+      for (std::size_t a = 1; a < s.size(); ++a) // insertion sort (no std algorithm needed here)
+        for (std::size_t b = a; b > 0 && s[b - 1] > s[b]; --b) std::swap(s[b - 1], s[b]);
+      res.push_back(s);
+    }
+  res.push_back(ivec(10, 1));
+  res.push_back(ivec(20, 2));
+  // one element that differs, far from the front (a predicate / value that matches only there: the
+  // first match, the break, the removed element lie beyond position 8), also as sorted sequences
+  {
+    ivec v(10, 1);
+    v.back() = 0;
+    res.push_back(v);
+  }
+  {
+    ivec v(20, 2);
+    v[12] = 0;
+    res.push_back(v);
+  }
+  {
+    ivec v(17, 0);
+    v[15] = 1;
+    v[16] = 2;
+    res.push_back(v);
+  }
+  {
+    ivec v(16, 2);
+    v[0] = 0;
+    v[1] = 1;
+    res.push_back(v);
+  }
+  {
+    ivec v(13, 1);
+    v[0] = 0;
+    v[12] = 2;
+    res.push_back(v);
+  }
+  return res;
+}
+
 // ---------------------------------------------------------------- static-size sources
 template <std::size_t N, std::size_t... Is>
 fcppt::array::object<int, N> mk_array(ivec const &v, std::index_sequence<Is...>)
@@ -334,25 +523,126 @@ fcppt::array::object<int, N> mk_array(ivec const &v)
   return mk_array<N>(v, std::make_index_sequence<N>{});
 }
 
+// fcppt::algorithm::map with an array source AND an array target (map_array.hpp: a specialisation of
+// map_impl that dispatches to fcppt::array::map), lvalue and rvalue source
+template <std::size_t N>
+void array_target(ivec const &v, std::string const &xs, bool const full, Sel &sel)
+{
+  sel.tables(27, full, [&](int i) {
+    {
+      auto const a(mk_array<N>(v));
+      UF const f(i);
+      Rec r("map");
+      r.ks("src", "array").ks("tgt", "array").ks("cat", "lvalue").ki("ek", 0).k("xs", xs).k("ft", f.json()).begin();
+      fcppt::array::object<int, N> const res(fcppt::algorithm::map<fcppt::array::object<int, N>>(a, f));
+      r.k("r", seqj(res)).end_log();
+    }
+    if (i % 3 == 2)
+    {
+      auto a(mk_array<N>(v));
+      UF const f(i);
+      Rec r("map");
+      r.ks("src", "array").ks("tgt", "array").ks("cat", "rvalue").ki("ek", 0).k("xs", xs).k("ft", f.json()).begin();
+      fcppt::array::object<int, N> const res(fcppt::algorithm::map<fcppt::array::object<int, N>>(std::move(a), f));
+      r.k("r", seqj(res)).end_log();
+    }
+  });
+}
+
+template <std::size_t N>
+void array_source_one(ivec const &v, bool const full, Sel &sel)
+{
+  auto const a(mk_array<N>(v));
+  std::string const xs = vj::arr(v);
+  loop_algos("array", 0, a, xs, full, sel);
+  iter_algos("array", 0, a, xs, full, sel);
+  value_algos<int>("array", a, xs, -1, 3);
+  index_algos("array", a, xs);
+  if (sorted(v)) sorted_algos("array", a, xs);
+  array_target<N>(v, xs, N <= 2, sel);
+}
+
 template <std::size_t N>
 void array_source(Sel &sel)
 {
-  each_seq(N, 3, [&](ivec const &v) {
-    auto const a(mk_array<N>(v));
-    std::string const xs = vj::arr(v);
-    loop_algos("array", 0, a, xs, N <= 3, sel);
-    iter_algos("array", 0, a, xs, N <= 3, sel);
-    value_algos<int>("array", a, xs, -1, 3);
-    index_algos("array", a, xs);
-    if (sorted(v)) sorted_algos("array", a, xs);
+  each_seq(N, 3, [&](ivec const &v) { array_source_one<N>(v, N <= 3, sel); });
+}
+
+// arrays beyond the exhaustive bound: seeded samples (and their sorted forms)
+template <std::size_t N>
+void array_source_sampled(Sel &sel, unsigned const count)
+{
+  SampleOnly const sampled(sel);
+  for (unsigned k = 0; k < count; ++k)
+  {
+    ivec v;
+    for (std::size_t i = 0; i < N; ++i) v.push_back(static_cast<int>(sel.rng.below(3)));
+    array_source_one<N>(v, false, sel);
+    for (std::size_t a = 1; a < v.size(); ++a)
+      for (std::size_t b = a; b > 0 && v[b - 1] > v[b]; --b) std::swap(v[b - 1], v[b]);
+    array_source_one<N>(v, false, sel);
+  }
+}
+
+template <typename Tuple, std::size_t... Is>
+std::string tuple_seqj(Tuple const &t, std::index_sequence<Is...>)
+{
+  std::string s = "[";
+  bool first = true;
+  (void)first;
+  ((s += (first ? "" : ","), s += ej(fcppt::tuple::get<Is>(t)), first = false), ...);
+  return s + "]";
+}
+
+// fcppt::algorithm::map with a tuple source AND a tuple target (map_tuple.hpp -> fcppt::tuple::map)
+template <typename Target, typename Tuple>
+void tuple_target(Tuple const &t, std::string const &xs, bool const full, Sel &sel)
+{
+  sel.tables(27, full, [&](int i) {
+    {
+      UF const f(i);
+      Rec r("map");
+      r.ks("src", "tuple").ks("tgt", "tuple").ks("cat", "lvalue").ki("ek", 0).k("xs", xs).k("ft", f.json()).begin();
+      Target const res(fcppt::algorithm::map<Target>(t, f));
+      r.k("r", tuple_seqj(res, std::make_index_sequence<fcppt::tuple::size<Target>::value>{})).end_log();
+    }
+    if (i % 3 == 0)
+    {
+      Tuple copy(t);
+      UF const f(i);
+      Rec r("map");
+      r.ks("src", "tuple").ks("tgt", "tuple").ks("cat", "rvalue").ki("ek", 0).k("xs", xs).k("ft", f.json()).begin();
+      Target const res(fcppt::algorithm::map<Target>(std::move(copy), f));
+      r.k("r", tuple_seqj(res, std::make_index_sequence<fcppt::tuple::size<Target>::value>{})).end_log();
+    }
   });
 }
 
 inline void tuple_sources(Sel &sel)
 {
+  // tuples beyond 4 elements: seeded samples
+  for (unsigned k = 0; k < 12; ++k)
+  {
+    ivec v;
+    for (unsigned i = 0; i < 7; ++i) v.push_back(static_cast<int>(sel.rng.below(3)));
+    {
+      fcppt::tuple::object<int, long, E3, unsigned, int> const t{
+          v[0], static_cast<long>(v[1]), static_cast<E3>(v[2]), static_cast<unsigned>(v[3]), v[4]};
+      ivec const w(v.begin(), v.begin() + 5);
+      loop_algos("tuple", 0, t, vj::arr(w), false, sel);
+      tuple_target<fcppt::tuple::object<int, int, int, int, int>>(t, vj::arr(w), false, sel);
+    }
+    {
+      fcppt::tuple::object<long, int, int, E3, unsigned, int, long> const t{
+          static_cast<long>(v[0]), v[1], v[2], static_cast<E3>(v[3]), static_cast<unsigned>(v[4]), v[5], static_cast<long>(v[6])};
+      loop_algos("tuple", 0, t, vj::arr(v), false, sel);
+      tuple_target<fcppt::tuple::object<int, int, int, int, int, int, int>>(t, vj::arr(v), false, sel);
+    }
+  }
   {
     fcppt::tuple::object<> const t{};
     loop_algos("tuple", 0, t, "[]", true, sel);
+    tuple_target<fcppt::tuple::object<>>(t, "[]", true, sel);
   }
   each_seq(1, 3, [&](ivec const &v) {
     fcppt::tuple::object<long> const t{static_cast<long>(v[0])};
@@ -365,6 +655,7 @@ inline void tuple_sources(Sel &sel)
   each_seq(3, 3, [&](ivec const &v) {
     fcppt::tuple::object<int, long, E3> const t{v[0], static_cast<long>(v[1]), static_cast<E3>(v[2])};
     loop_algos("tuple", 0, t, vj::arr(v), true, sel);
+    tuple_target<fcppt::tuple::object<int, int, int>>(t, vj::arr(v), false, sel);
   });
   each_seq(4, 3, [&](ivec const &v) {
     fcppt::tuple::object<unsigned, int, int, long> const t{
@@ -393,6 +684,8 @@ inline void mpl_sources(Sel &sel)
   mpl_source<1, 1, 0, 2>(sel);
   mpl_source<2, 1, 0, 0, 1>(sel);
   mpl_source<0, 2, 1, 1, 2, 0>(sel);
+  mpl_source<1, 2, 0, 0, 2, 1, 1>(sel);
+  mpl_source<2, 0, 1, 2, 2, 0, 1, 0, 1>(sel);
 }
 
 // ---------------------------------------------------------------- dynamic sources
@@ -408,7 +701,20 @@ void seq_source(char const *sn, unsigned maxlen, unsigned fulllen, bool mut, Sel
     value_algos<int>(sn, c, xs, -1, 3);
     if (sorted(v)) sorted_algos(sn, c, xs);
     if (mut) mut_algos<Cont>(sn, v, xs, full, sel);
+    if (v.size() <= (sel.thorough ? 4U : 3U)) category_algos<Cont>(sn, v, xs, sel);
   });
+  SampleOnly const sampled(sel);
+  for (ivec const &v : long_inputs(sel.rng, sel.thorough))
+  {
+    Cont const c(v.begin(), v.end());
+    std::string const xs = vj::arr(v);
+    loop_algos(sn, 0, c, xs, false, sel);
+    iter_algos(sn, 0, c, xs, false, sel);
+    value_algos<int>(sn, c, xs, -1, 3);
+    if (sorted(v)) sorted_algos(sn, c, xs);
+    if (mut) mut_algos<Cont>(sn, v, xs, false, sel);
+    category_algos<Cont>(sn, v, xs, sel);
+  }
 }
 
 template <typename Cont>
@@ -418,6 +724,24 @@ void index_source(char const *sn, unsigned maxlen)
     Cont const c(v.begin(), v.end());
     index_algos(sn, c, vj::arr(v));
   });
+  vj::Rng rng(maxlen + 77U);
+  for (ivec const &v : long_inputs(rng, false))
+  {
+    Cont const c(v.begin(), v.end());
+    index_algos(sn, c, vj::arr(v));
+  }
+  // positions that do not fit into 7 / 8 bits: the only 3 of a long sequence sits near its end
+  for (unsigned const len : {130U, 300U})
+  {
+    ivec v;
+    for (unsigned i = 0; i < len; ++i) v.push_back(static_cast<int>(rng.below(2)));
+    v[len - 2U] = 3;
+    v[len - 1U] = 2;
+    Cont const c(v.begin(), v.end());
+    std::string const xs = vj::arr(v);
+    index_algos(sn, c, xs);
+    value_algos<int>(sn, c, xs, 2, 3);
+  }
 }
 
 inline void set_sources(Sel &sel)
@@ -447,6 +771,17 @@ inline void multiset_sources(unsigned maxlen, Sel &sel)
     value_algos<int>("multiset", c, xs, -1, 3);
     sorted_algos("multiset", c, xs);
   });
+  SampleOnly const sampled(sel);
+  for (ivec const &v : long_inputs(sel.rng, false))
+  {
+    if (!sorted(v)) continue;
+    std::multiset<int> const c(v.begin(), v.end());
+    std::string const xs = vj::arr(v);
+    loop_algos("multiset", 0, c, xs, false, sel);
+    iter_algos("multiset", 0, c, xs, false, sel);
+    value_algos<int>("multiset", c, xs, -1, 3);
+    sorted_algos("multiset", c, xs);
+  }
 }
 
 // all std::map<int,int> with keys and mapped values in {0,1,2}
@@ -483,18 +818,49 @@ inline void map_sources(Sel &sel)
         fcppt::algorithm::map_iteration(m, f);
         r.k("st", seqj(m)).end_log();
       }
-      {
-        AF const f(i);
-        std::map<int, int> m(c);
-        Rec r("map_iteration_second");
-        r.ks("src", "map").k("xs", xs).k("ft", f.json()).begin();
-        fcppt::algorithm::map_iteration_second(m, f);
-        r.k("st", seqj(m)).end_log();
-      }
     }
   });
+  // (round 3 audit) maps with more than 3 entries: keys from 0..11, mapped values in {0,1,2}
+  SampleOnly const sampled(sel);
+  for (unsigned k = 0; k < (sel.thorough ? 60U : 16U); ++k)
+  {
+    std::vector<std::pair<int, int>> ps;
+    unsigned const want = 4U + static_cast<unsigned>(sel.rng.below(7));
+    for (int key = 0; key < 12 && ps.size() < want; ++key)
+      if (sel.rng.below(12U - static_cast<unsigned>(key)) < want - ps.size() + 1U)
+        ps.emplace_back(key, static_cast<int>(sel.rng.below(3)));
+    std::map<int, int> const c(ps.begin(), ps.end());
+    std::string const xs = seqj(ps);
+    loop_algos("map", 1, c, xs, false, sel);
+    iter_algos("map", 1, c, xs, false, sel);
+    for (int i = 0; i < 8; ++i)
+    {
+      AF const f(i);
+      std::map<int, int> m(c);
+      Rec r("map_iteration");
+      r.ks("src", "map").ki("ek", 1).k("xs", xs).k("ft", f.json()).begin();
+      fcppt::algorithm::map_iteration(m, f);
+      r.k("st", seqj(m)).end_log();
+    }
+  }
+  // map_iteration over a std::set ("map-like": erase(iterator))
+  for (unsigned mask = 0; mask < 8; ++mask)
+  {
+    ivec v;
+    for (int i = 0; i < 3; ++i)
+      if (mask & (1U << i)) v.push_back(i);
+    for (int i = 0; i < 8; ++i)
+    {
+      AF const f(i);
+      std::set<int> m(v.begin(), v.end());
+      Rec r("map_iteration");
+      r.ks("src", "set").ki("ek", 0).k("xs", vj::arr(v)).k("ft", f.json()).begin();
+      fcppt::algorithm::map_iteration(m, f);
+      r.k("st", seqj(m)).end_log();
+    }
+  }
   // map_iteration over a std::set and a std::multiset ("map-like": erase(iterator))
-  each_seq_upto(4, 3, [&](ivec const &v) {
+  auto const multiset_iteration = [](ivec const &v) {
     if (!sorted(v)) return;
     std::string const xs = vj::arr(v);
     for (int i = 0; i < 8; ++i)
@@ -506,7 +872,9 @@ inline void map_sources(Sel &sel)
       fcppt::algorithm::map_iteration(m, f);
       r.k("st", seqj(m)).end_log();
     }
-  });
+  };
+  each_seq_upto(4, 3, multiset_iteration);
+  for (ivec const &v : long_inputs(sel.rng, false)) multiset_iteration(v);
 }
 
 inline void int_range_sources(Sel &sel)
@@ -536,6 +904,28 @@ inline void int_range_sources(Sel &sel)
         iter_algos("int_range_count", 0, rg, xs, true, sel);
       }
     }
+}
+
+// (round 3 audit) longer int ranges: the user-function tables only cover the codes 0..2, so only the
+// table-free algorithms (loop, contains, find_opt) are driven on them
+inline void long_int_range_sources()
+{
+  static int const bounds[][2] = {{0, 7}, {3, 20}, {5, 70}, {-4, 4}};
+  for (auto const &b : bounds)
+  {
+    ivec v;
+    for (int i = b[0]; i < b[1]; ++i) v.push_back(i);
+    std::string const xs = vj::arr(v);
+    auto const rg(fcppt::make_int_range(b[0], b[1]));
+    {
+      Rec r("loop");
+      r.ks("src", "int_range").ki("ek", 0).k("xs", xs).begin();
+      fcppt::algorithm::loop(rg, [](auto const &x) { lg(ej(x)); });
+      r.end_log();
+    }
+    value_algos<int>("int_range", rg, xs, b[0] - 1, b[0] + 1);
+    value_algos<int>("int_range", rg, xs, b[1] - 2, b[1]);
+  }
 }
 
 inline void enum_range_sources(Sel &sel)
